@@ -254,12 +254,28 @@ class PiecewiseEstimator(BaseEstimator):
             rnd = numpy.random.RandomState(self.random_state)
         else:
             rnd = None
+        # one generator per bucket: the result must not depend on the order
+        # in which threads draw from a shared one
+        if rnd is None:
+            rnds = [None for _ in estimators]
+        else:
+            rnds = [
+                numpy.random.RandomState(s)
+                for s in rnd.randint(0, 2**31 - 1, len(estimators))
+            ]
 
         self.estimators_ = Parallel(
             n_jobs=self.n_jobs, verbose=verbose, prefer="threads"
         )(
             delayed(_fit_piecewise_estimator)(
-                i, estimators[i], X, y, sample_weight, association, nb_classes, rnd
+                i,
+                estimators[i],
+                X,
+                y,
+                sample_weight,
+                association,
+                nb_classes,
+                rnds[i],
             )
             for i in loop
         )
